@@ -185,6 +185,16 @@ theorem optAll_mono {α : Type} (f₁ f₂ : Nat → Option α) (hf : ∀ i d, f
         rw [optAll_mono f₁ f₂ hf l xs h2]
         exact h
 
+theorem readKnots_le {hs₁ hs₂ : List Hdu} (hle : HdusLe hs₁ hs₂) (orders naxes : List Nat) (i : Nat) (ks : List Nat)
+    (h : readKnots hs₁ orders naxes i = some ks) : readKnots hs₂ orders naxes i = some ks := by
+  unfold readKnots at h ⊢
+  cases hd : extData (knotsName i) (knotHdrOkFor (orders.getD i 0) (naxes.getD i 0)) hs₁ with
+  | none => rw [hd] at h; exact absurd h (by simp)
+  | some d =>
+    rw [hd] at h
+    rw [extData_le _ _ hle d hd]
+    exact h
+
 theorem readCore_le {hs₁ hs₂ : List Hdu} (hle : HdusLe hs₁ hs₂) (c : Core) (h : readCore hs₁ = some c) :
     readCore hs₂ = some c := by
   cases hle with
@@ -204,13 +214,13 @@ theorem readCore_le {hs₁ hs₂ : List Hdu} (hle : HdusLe hs₁ hs₂) (c : Cor
       | some d =>
         rw [hd] at h
         simp only at h ⊢
-        cases hk : optAll ((List.range ax.length).map fun i => extData (knotsName i) knotHdrOk (p :: t₁)) with
+        cases hk : optAll ((List.range ax.length).map fun i => readKnots (p :: t₁) orders ax.reverse i) with
         | none => rw [hk] at h; exact absurd h (by simp)
         | some ks =>
           rw [hk] at h
-          have := optAll_mono (fun i => extData (knotsName i) knotHdrOk (p :: t₁))
-            (fun i => extData (knotsName i) knotHdrOk (p :: t₂))
-            (fun i d hd => extData_le (knotsName i) knotHdrOk hle' d hd) _ _ hk
+          have := optAll_mono (fun i => readKnots (p :: t₁) orders ax.reverse i)
+            (fun i => readKnots (p :: t₂) orders ax.reverse i)
+            (fun i ks hks => readKnots_le hle' orders ax.reverse i ks hks) _ _ hk
           rw [this]
           exact h
   | trunc p p' t₂ hc hd =>
